@@ -110,8 +110,10 @@ def rule_gcd(rep):
         if t != "FftFixedInOut":
             reqv = idiv_f(alg.sym(req), alg.sym(pn[3]))
         cd = sp.Function("cdiv")
-        ok = sp.simplify(ch - cd(reqv, unit)) == 0
-        rep.ob(R, "%s/multiplier" % t, ok, "fft_chunks = %s ; must be the exact ceiling division of the requested size %s by %s (smallest block count whose size is ≥ the request)" % (ch, reqv, unit), loc(cfn))
+        fmx = sp.Function("fmax")
+        # the smallest block count whose size is ≥ the request; "at least one block" (max with 1) is the same count for every request ≥ 1
+        ok = any(sp.simplify(ch - w) == 0 for w in (cd(reqv, unit), fmx(cd(reqv, unit), 1), fmx(1, cd(reqv, unit))))
+        rep.ob(R, "%s/multiplier" % t, ok, "fft_chunks = %s ; must be the exact ceiling division of the requested size %s by %s (smallest block count whose size is ≥ the request), optionally clamped to at least one block" % (ch, reqv, unit), loc(cfn))
     # FftFixedInOut returns exactly its block sizes
     m = fftmodel.extract(facts, "FftFixedInOut")
     rin, rout = fftmodel.ret_tuple(m)
